@@ -98,6 +98,7 @@ Theorem C01_instr_agree : forall i k fn s s1 vis,
   exists args rest, vis = args ++ rest /\ length args = k /\
     match ref_simple i (map erase vis) with
     | Done r => exists outs, fn args = POk outs /\ map erase (outs ++ rest) = r /\ styped (outs ++ rest) s1
+    | RtError => fn args = PErr
     | _ => False
     end.
 Proof. exact simple_agree. Qed.
